@@ -578,7 +578,7 @@ impl Model {
         use Op::*;
         match op {
             Draw(t) => self.draw(t),
-            Bell | Da(_) | Display => {}
+            Bell | Da(_) | Display | ClearDirty => {}
             Backspace => self.cub(None),
             Tab => self.tab(),
             Linefeed => self.linefeed(),
